@@ -26,6 +26,11 @@ func C13_writer_reader() {
 	bufLen := 1 + vChoose("buflen", 3)
 	w := wsutil.NewWriterSize(dst, st|ws.StateExtended, ws.OpCode(1+vChoose("op", 2)), bufLen)
 	w.SetExtensions(&ms)
+	if vChoose("resetup", 2) == 1 {
+		// per-message set-up as applications do it: quick opcode reset, then the extensions again
+		w.ResetOp(ws.OpCode(1 + vChoose("op2", 2)))
+		w.SetExtensions(&ms)
+	}
 	n := vChoose("n", 6)
 	p := vBytes("p", n)
 	for _, c := range p {
